@@ -496,7 +496,7 @@ class UnitGen:
                     t2 = t.replace('__vp_unwind !()', rep)
                     self.lines.append(Line(base + t2, kind='clause', fn=fnpath, clause=f.unwind.id, src=(file, l)))
                 continue
-            if '__vp_' in t.replace('__vp_scrut', '').replace('__vp_self', '').replace('__vp_ret', '').replace('__vp_k', '').replace('__vp_eta', '').replace('__vp_s', '').replace('__vp_i', '').replace('__vp_arr', ''):
+            if '__vp_' in t.replace('__vp_scrut', '').replace('__vp_self', '').replace('__vp_ret', '').replace('__vp_k', '').replace('__vp_eta', '').replace('__vp_s', '').replace('__vp_i', '').replace('__vp_arr', '').replace('__vp_or', ''):
                 raise GenError('internal: unreplaced marker in %s: %s' % (fnpath, t))
             self.lines.append(Line(base + t, kind='body', fn=fnpath, src=(file, l)))
         vanished_loops = set(io.get('vanished_loops') or [])
